@@ -294,10 +294,14 @@ def countTicks (slowestCycles : Int) : List (Rat × Vec) → Int → Nat → Nat
     let cc' := if s.1 = 0 then cc + 1 else cc
     if slowestCycles ≤ cc' then tc else countTicks slowestCycles l cc' (tc + 1)
 
+/-- `exhaustion_cycles[item]` and the key `exhaustion_cycles[i] * duration` of the slowest-hardener search. -/
+def exhKey (r : RS) : Option (RS × Int × Rat) :=
+  match exhaustion r.rah, r.rah.dur with
+  | some e, some d => some (r, e, (e : Rat) * d)
+  | _, _ => none
+
 def estimate (st : List RS) : Option (Nat × Bool) :=
-  match mapO (fun r => match exhaustion r.rah, r.rah.dur with
-      | some e, some d => some (r, e, (e : Rat) * d)
-      | _, _ => none) st with
+  match mapO exhKey st with
   | none => none
   | some l =>
     match argmaxFirst (fun x => x.2.2) l with
